@@ -19,3 +19,36 @@ fn h_w_new_sub_no_ends() {
     }
     assert_eq!(n, 254, "a /24 has 254 host addresses");
 }
+
+// ---------------------------------------------------------------------------
+// Witness scenarios ported from the seed corpus (public-API call sequences; see units/ipgen/w/*.rs)
+// ---------------------------------------------------------------------------
+#[cfg(vx_replay)]
+#[path = "/verif/units/ipgen/w/fetch_net_overlap.rs"]
+mod w_fetch_net_overlap;
+#[cfg(vx_replay)]
+#[path = "/verif/units/ipgen/w/block_tail.rs"]
+mod w_block_tail;
+#[cfg(vx_replay)]
+#[path = "/verif/units/ipgen/w/top_edge.rs"]
+mod w_top_edge;
+
+//# id=witness.fetch_net_stays_inside_the_pool props=C15 kind=witness pair=ipgen.IpGenerator.fetch_net.only_hands_out_available_addresses,ipgen.IpGenerator.fetch_net.handed_out_addresses_become_unavailable,ipgen.IpGenerator.fetch_net.safety
+// a fetched network never overlaps addresses that are held, and stays inside the pool after returns
+#[cfg(vx_replay)]
+#[test]
+fn h_w_fetch_net_overlap() {
+    w_fetch_net_overlap::fetch_net_never_overlaps_held_addresses();
+    w_fetch_net_overlap::fetch_net_after_returns_stays_inside_pool();
+}
+
+//# id=witness.blocked_addresses_are_never_handed_out props=C15 kind=witness pair=ipgen.IpRange.overlaps.iff_intervals_intersect,ipgen.IpGenerator.block_range.blocks_exactly_the_range,ipgen.IpGenerator.block_range.safety,ipgen.IpGenerator.block_subnet.blocks_exactly_the_subnet
+// blocking a range that touches the end of an available range / the top of the address space really removes it
+#[cfg(vx_replay)]
+#[test]
+fn h_w_block_edges() {
+    w_block_tail::blocked_last_address_of_range_is_never_handed_out();
+    w_block_tail::blocked_net_straddling_end_of_range_is_never_handed_out();
+    w_top_edge::held_subnet_at_top_of_address_space_is_not_handed_out_again();
+    w_top_edge::blocked_subnet_at_top_of_address_space_is_not_handed_out();
+}
